@@ -123,6 +123,17 @@ CLAIMS = {
         "Sun.apparent_geocentric_position, true_obliquity, apparent_sidereal_time and equatorial2horizontal.",
    technique="TLA+ trace specification with action properties over ordered seasons/days; verified trigonometric witnesses",
    ref="5/C14"),
+ "C07": dict(
+   text="Orbit.tla holds the mean-orbit constants of the eight planets and the trajectory laws (longitude range, latitude vs "
+        "inclination, radius between perihelion and aphelion, longitude strictly increasing at a rate within 3% of the "
+        "Keplerian extremes, evaluated without roots); TLC checks the seam/rate algebra on a grid and validates time-ordered "
+        "VSOP87 position traces of every planet (sparse, daily and 1-second steps) with the rate law as an action property, the "
+        "two-body comparison on verified unit vectors, the FK5/aberration/nutation relations, the series-vs-table mean rate and "
+        "Kepler's third law; the direct re-summation clause is a harness oracle whose comparison is done by the spec.",
+   note="Trusted: TLC, Fix.tla, Table 31.A literals typed into Orbit.tla, math.sin/cos for unit vectors (norm verified), the "
+        "~15-line two-body wiring (library elements + library kepler_equation), math.fsum for the direct summation.",
+   technique="TLA+ orbit laws as invariants/action properties over time-ordered traces; verified witnesses; one harness-oracle clause",
+   ref="5/C07"),
 }
 
 PENDING_REASON = "check not built yet in this round (specification module planned in DESIGN.md section 5); not claimed until its trace specification validates the unchanged tree"
